@@ -60,6 +60,10 @@ CHECKS = {
   text="Exhaustiveness and taint rules decide for every constructible circuit and option combination: each component kind has a drawing handler in both back-ends; each draw-spec tag has a renderer branch of matching arity and the renderer chain ends in raise DisplayError; parameter values (which may be label strings) reach numeric formatting only under `not isinstance(v, str)`; no display code mutates the circuit (effect analysis incl. the held alias of the internal-mode list); wrong label length / unknown display type raise DisplayError before use. In-range layout index arithmetic is not claimed.",
   note="Trusted: drawsvg/matplotlib calls do not raise on finite coordinates; multimethod dispatch on annotated class.",
   tech=TECH + "dispatch-table exhaustiveness, tag/arity table agreement, taint rule with guard facts, effect analysis", ref="DESIGN.md §3 R-H3, R-H4, R-C1, R-D; §4 C19"),
+ "C14": dict(
+  text="Guard normal forms decide for every draw that Gaussian/TopHat values stay within their declared bounds; a small interval domain with float-aware modulo semantics decides that every programmed phase lies in [0, 2pi); structural rules decide that the mapped circuit consists of barriers, phase shifters and adjacent-mode beam splitters on a fresh circuit with heralds copied pairwise, that noise enters only through error-model accessors whose values pass the circuit's validators, and that seeding dominates every draw with per-distribution seeds derived from the call's seed and each distribution re-binding the generator it draws from. Correctness of the triangular decomposition (numerical) is not claimed.",
+  note="Trusted: numpy Generator.random in [0,1); np.angle in (-pi, pi]; float `%` by a positive modulus lies in [0, m] (m itself attainable for tiny negative operands).",
+  tech=TECH + "comparison normal form incl. loop-exit clauses, abstract interval evaluation of phase expressions, CFG dominance of seeding, effect/structure checks", ref="DESIGN.md §3 R-E, R-J, R-I; §4 C14"),
 }
 NA = {}
 
